@@ -1174,7 +1174,19 @@ def correspond(ctx):
       if v <= 20:
         for _ in range(ctx.n(1, 4)):
           yield gen_doc(ctx.rng, v - 1, ctx.rng.choice(['expected', 'anyjson']), None)
-  for doc in link_docs():
+  def orphan_link_docs():
+    # a column record of no table, of a type no migration looks the parent up for: the unchanged code migrates it,
+    # and the body models must too (on the exact tdset, orphan included)
+    for v in ([0, 9, 16, 20, 27] if ctx.tier == 'quick' else list(range(0, 28))):
+      w = witness_of(gen_doc(ctx.rng, v, 'expected', None))
+      vals = {'parentId': ctx.rng.choice([0, 77]), 'colId': 'orphan', 'type': ctx.rng.choice(['Attachments', 'Attachments', 'Text']),
+              'parentPos': 99.0, 'label': 'orphan', 'isFormula': False, 'formula': '', 'widgetOptions': ''}
+      if append_record(w, '_grist_Tables_column', vals) is not None:
+        d = doc_of(w)
+        d.orphan = True
+        yield d
+  import itertools
+  for doc in itertools.chain(link_docs(), orphan_link_docs()):
     mo = ctx.rng.random() < 0.3
     r = run_doc(doc, mo)
     needall = r.exc is not None and str(r.exc).startswith('need all tables')
@@ -1199,6 +1211,8 @@ def correspond(ctx):
               sample={'stream': 'real migrations replayed in the model', 'version': doc.version,
                       'metadata_only': mo, 'migrations_run': [v for v, _ in r.rec][:4], 'actions': len(r.acts or []),
                       'user_tables': doc.user_tables} if doc.version in (5, 30) else None)
+    if getattr(doc, 'orphan', False):
+      ctx.bump('link:with-an-orphan-column-record')
     ctx.bump('link:need-all-tables' if needall else ('link:meta-only-actions' if meta_only(r.acts)
                                                        else 'link:touches-user-tables'))
   if len(runs) < current_version():
@@ -1247,11 +1261,13 @@ def correspond(ctx):
       # (the document is outside the premise of that body's totality theorem)
       vs = [v for v in modelled() if v in [x for x, _ in r.rec]]
       bad_vs = ctx.run_cases(
-        'link_bv%d' % i, IMPORTS, "fun v => let '(o, T0, rec) := the_b in check_body_at const_bodies v o T0 rec",
+        'link_bv%d' % i, IMPORTS, "fun v => let '(strict, o, T0, rec) := the_b in check_body_at const_bodies v o T0 rec",
         [core.zlit(v) for v in vs] + ['(%s)' % core.zlit(-v) for v in vs], shard=1000,
         extra_defs=lambda part: POOL.defs_for([b]) + '\nDefinition the_b : %s := %s.' % (BODIES_TYPE, b), case_type='Z')
       for k in bad_vs:
         v = (vs + [-x for x in vs])[k]
+        if v in (-7, -10) and getattr(r.doc, 'orphan', False):
+          continue
         if v > 0:
           ctx.broken('correspondence:modelled body of migration %d differs from the real migration' % v,
                      'document at version %d; real actions %r' % (r.doc.version, dict(r.rec)[v]))
@@ -1299,6 +1315,97 @@ def corrupt(rng, w):
   return w, None
 
 
+# ---------------------------------------------------------------------------------------------
+# Orphans: records whose references name nothing (inside the premise: every cell still holds a value of its type)
+
+ORPHAN_COL_TYPES = ['Attachments', 'Attachments', 'Text', 'Int', 'Any', 'Ref:Table1', 'RefList:Foo', 'Choice', 'Bool']
+
+
+def meta_default(version, table, col):
+  usertypes = mods()[5]
+  info = meta_at(version).get_schema().get(table, {}).get(col, {})
+  return usertypes.get_type_default(info.get('type', 'Text'))
+
+
+def append_record(w, table, values):
+  """Append one record to a metadata table of the witness; cells not given get their type's default."""
+  sch = meta_at(w['version']).get_schema()
+  for a in w.get('extra', []):
+    if a[0] == 'AddColumn' and a[1] == table:
+      sch[table][a[2]] = a[3]
+  if table not in sch:
+    return None
+  d = w['tables'].setdefault(table, {'ids': [], 'cols': {}})
+  n = len(d['ids'])
+  new_id = max([x for x in d['ids'] if isinstance(x, int)] + [0]) + 1
+  for c in sch[table]:
+    d['cols'].setdefault(c, [enc_json(meta_default(w['version'], table, c))] * n)
+  for c in d['cols']:
+    d['cols'][c].append(enc_json(values[c]) if c in values else enc_json(meta_default(w['version'], table, c)))
+  d['ids'].append(new_id)
+  return new_id
+
+
+def inject_orphan(rng, w):
+  """(witness with one orphan, what) -- a column record of no table, or a reference cell naming no record."""
+  w = copy.deepcopy(w)
+  v = w['version']
+  sch = meta_at(v).get_schema()
+  T = w['tables'].get('_grist_Tables', {'ids': []})
+  far = max([x for x in T['ids'] if isinstance(x, int)] + [0]) + rng.choice([3, 7])
+  if rng.random() < 0.55:
+    types = list(ORPHAN_COL_TYPES) + (['Image'] if v < 17 else []) + (['Derived'] if v < 3 else [])
+    ty = rng.choice(types)
+    vals = {'parentId': rng.choice([0, far]), 'colId': rng.choice(['orphan', 'A', 'gristHelper_Display']), 'type': ty,
+            'parentPos': 99.0, 'label': 'orphan', 'isFormula': rng.random() < 0.3,
+            'formula': rng.choice(['', '$A', 'Foo.lookupOrAddDerived($A,$B)', 'GristSummary_3_Foo.lookupOne(A=$A)']),
+            'widgetOptions': rng.choice(['', '{"visibleCol":"A"}', '{"visibleCol":"id"}', 'junk'])}
+    if 'rules' in sch.get('_grist_Tables_column', {}) and v < 29:
+      vals['rules'] = rng.choice([None, '[99]'])
+    if append_record(w, '_grist_Tables_column', vals) is None:
+      return None, None
+    return w, 'column:%s' % ty.split(':')[0]
+  # a dangling reference cell in some record (not the parentId of a column: that would empty a table)
+  cands = []
+  for t, d in w['tables'].items():
+    for c in d['cols']:
+      ty = sch.get(t, {}).get(c, {}).get('type', '')
+      if ty.startswith('Ref:') and (t, c) != ('_grist_Tables_column', 'parentId') and d['ids']:
+        cands.append((t, c, ty[4:]))
+  if not cands:
+    return None, None
+  t, c, target = rng.choice(sorted(cands))
+  early = [x for x in cands if x[:2] == ('_grist_Views_section', 'tableRef')]
+  if v < 2 and early and rng.random() < 0.6:
+    t, c, target = early[0]                     # migrations 1 and 2 read the sections' tableRef
+  tgt = w['tables'].get(target, {'ids': []})['ids']
+  dangling = max([x for x in tgt if isinstance(x, int)] + [0]) + rng.choice([2, 9])
+  i = rng.randrange(len(w['tables'][t]['ids']))
+  w['tables'][t]['cols'][c][i] = dangling
+  if t == '_grist_Views_section' and c == 'tableRef' and rng.random() < 0.5:
+    w['tables'][t]['cols']['parentKey'][i] = 'record'
+  return w, 'ref:%s.%s' % (t, c)
+
+
+def check_orphan(ctx, w0, w, what):
+  """The orphan must not make migrating fail (when the document without it migrates)."""
+  r = run_w(w)
+  ctx.count(('orphan', w['version'], what, repr(r.before)), nontrivial=True, kind='search:orphan:' + what.split(':')[0])
+  if r.exc is None:
+    for kind, desc in problems(r):
+      report(ctx, kind, desc, lambda: w)
+    return r
+  if w.get('metadata_only') and str(r.exc).startswith('need all tables for migration'):
+    return r
+  r0 = run_w(w0)
+  if r0.exc is not None and r0.site == r.site:
+    return r                                   # fails without the orphan too: the ordinary streams report that
+  report(ctx, 'orphan:%s:%s' % (r.site, 'column' if what.startswith('column:') else what),
+         'from version %d: a record that references nothing (%s) makes %s raise %s: %s'
+         % (w['version'], what, r.site, type(r.exc).__name__, r.exc), lambda: w)
+  return r
+
+
 def check_doc(ctx, doc, mo, label):
   """Run one document; report violations; returns the run."""
   r = run_doc(doc, mo)
@@ -1326,9 +1433,9 @@ def search(ctx):
   import logging
   logging.disable(logging.CRITICAL)
   cur = current_version()
-  # regression corpus first: the witnesses of every finding ever registered for this property (fixed ones too)
+  # regression corpus first: the witnesses of the findings that were fixed (the still-known ones are replayed by core)
   for k in core.load_known():
-    if k.get('property') == ID and isinstance(k.get('witness'), dict):
+    if k.get('property') == ID and k.get('kind') == 'fixed' and isinstance(k.get('witness'), dict):
       w = k['witness']
       check_doc(ctx, doc_of(w), w.get('metadata_only', False), 'regression-corpus')
   per = ctx.n(3, 60)
@@ -1351,6 +1458,13 @@ def search(ctx):
       if r.exc is not None or r.acts != [last] or r.rec or canon(user_part(r.before)) != canon(user_part(r.after)):
         report(ctx, 'current-doc-not-noop', 'a document at version %d: %r' % (v, r.exc or r.acts[:3]),
                lambda: dict(witness_of(doc, False, r.before), version=cur, docinfo_version=v))
+  # orphans: one record referencing nothing added to an otherwise consistent document, every version
+  for doc in doc_stream(ctx, ctx.n(3, 40), 'expected'):
+    w0 = witness_of(doc)
+    w0['metadata_only'] = doc.version >= 17 and ctx.rng.random() < 0.3
+    w, what = inject_orphan(ctx.rng, w0)
+    if what is not None:
+      check_orphan(ctx, w0, w, what)
   # robustness stream: inconsistent documents, counted but outside the premise
   raised = {}
   for doc in doc_stream(ctx, ctx.n(2, 20), 'expected'):
@@ -1598,10 +1712,14 @@ def summary_regex():
 
 def bodies_case(r):
   rec = core.coq_list(['(%s, %s)' % (core.zlit(v), cacts(acts)) for v, acts in r.rec])
-  return '(%s, %s, %s)' % (oracles_term(r), ctds(r.T0), rec)
+  strict = not getattr(r.doc, 'orphan', False)
+  return '(%s, %s, %s, %s)' % (core.boollit(strict), oracles_term(r), ctds(r.T0), rec)
 
-BODIES_TYPE = 'oracles * tds * list (Z * list action)'
-BODIES_CHECK = "fun c => let '(o, T0, rec) := c in check_bodies const_bodies o T0 rec"
+BODIES_TYPE = 'bool * oracles * tds * list (Z * list action)'
+# documents with an orphan column record are outside the (stronger than necessary) premises of the totality theorems
+# of migrations 7 and 10, which ask every column's parentId to name a table: there only the bodies are compared
+BODIES_CHECK = ("fun c => let '(strict, o, T0, rec) := c in (strict && check_bodies const_bodies o T0 rec) || "
+                "(negb strict && forallb (fun v => Z.eqb v (-7) || Z.eqb v (-10)) (walk_bad const_bodies o rec T0))")
 
 
 # ---------------------------------------------------------------------------------------------
